@@ -16,24 +16,36 @@ CONSTANTS Layout, Depth
 \*   b: mode log, prior Uniform(bounds = [0, 48])     x           ->  b = x
 \*   c: lin, NOT fitted (12)
 \* perfect fit at a = 10, b = 2:  bin1 = (3a+b+2c)/2 = 28,  bin2 = (7a+b)/2 = 36
+\* Layout "obs": the world "two" plus two fitted parameters that live on the OBSERVATION (compile_params appends
+\* them after the model's):  o = additive offset of the observed spectrum (lin, bounds [-4, 4], initially 0),
+\*                           s = multiplicative scale (log mode, exponent bounds [0, 1], initially 1)
+\*   observed spectrum = Data * s + o;  perfect fit at a=2, b=10^1, (c=6,) o=0, s=10^0, i.e. x = <<2, 1, 0, 0>>
 Mixed   == Layout \in {"mixed", "mixedref"}
-MCNP    == IF Layout = "three" THEN 4 ELSE 3
-MCFit   == IF Layout = "three" THEN <<TRUE, TRUE, FALSE, TRUE>> ELSE <<TRUE, TRUE, FALSE>>
-MCMode  == IF Layout = "three" THEN <<"lin", "log", "lin", "lin">> ELSE <<"lin", "log", "lin">>
-MCLo    == IF Layout = "three" THEN <<0, 0, 0, 4>> ELSE <<0, 0, 0>>
-MCHi    == IF Layout = "three" THEN <<8, 2, 0, 1>> ELSE <<8, 2, 0>>      \* d's bounds are given reversed
+Obs     == Layout = "obs"
+MCNP    == IF Layout = "three" THEN 4 ELSE IF Obs THEN 5 ELSE 3
+MCFit   == IF Layout = "three" THEN <<TRUE, TRUE, FALSE, TRUE>> ELSE IF Obs THEN <<TRUE, TRUE, FALSE, TRUE, TRUE>>
+           ELSE <<TRUE, TRUE, FALSE>>
+MCMode  == IF Layout = "three" THEN <<"lin", "log", "lin", "lin">> ELSE IF Obs THEN <<"lin", "log", "lin", "lin", "log">>
+           ELSE <<"lin", "log", "lin">>
+MCRole  == IF Obs THEN <<"model", "model", "model", "offset", "scale">> ELSE [p \in 1..MCNP |-> "model"]
+MCLo    == IF Layout = "three" THEN <<0, 0, 0, 4>> ELSE IF Obs THEN <<0, 0, 0, -4, 0>> ELSE <<0, 0, 0>>
+MCHi    == IF Layout = "three" THEN <<8, 2, 0, 1>> ELSE IF Obs THEN <<8, 2, 0, 4, 1>> ELSE <<8, 2, 0>>      \* d's bounds are given reversed
 MCUser  == IF Mixed THEN <<TRUE, TRUE, FALSE>> ELSE [p \in 1..MCNP |-> FALSE]
 MCUMode == IF Mixed THEN <<"log", "lin", "lin">> ELSE [p \in 1..MCNP |-> "lin"]
 MCULo   == [p \in 1..MCNP |-> 0]
 MCUHi   == IF Mixed THEN <<2, 48, 0>> ELSE [p \in 1..MCNP |-> 0]
-MCVal0  == IF Mixed THEN <<1, 1, 12>> ELSE IF Layout = "two" THEN <<1, 1, 6>> ELSE <<1, 1, 6, 3>>
+MCVal0  == IF Mixed THEN <<1, 1, 12>> ELSE IF Layout = "two" THEN <<1, 1, 6>> ELSE IF Obs THEN <<1, 1, 6, 0, 1>>
+           ELSE <<1, 1, 6, 3>>
 MCXSet  == IF Layout = "mixed" THEN <<{0, 1, 2}, {0, 2, 10, 45}, {}>>
            ELSE IF Layout = "mixedref" THEN <<{0, 1}, {0, 2, 3}, {}>>
-           ELSE IF Layout = "two" THEN <<0..7, 0..2, {}>> ELSE <<{0, 2, 3, 6}, 0..2, {}, {2, 3}>>
+           ELSE IF Layout = "two" THEN <<0..7, 0..2, {}>>
+           ELSE IF Obs THEN <<{2, 3, 6}, {0, 1}, {}, {-2, 0}, {0, 1}>>
+           ELSE <<{0, 2, 3, 6}, 0..2, {}, {2, 3}>>
 MCCoef  == IF Layout = "three" THEN <<<<1, 2, 3, 4>>, <<1, 0, 0, 1>>, <<1, 1, 0, 0>>, <<0, 1, 2, 0>>>>
+           ELSE IF Obs THEN <<<<1, 2, 3, 4>>, <<1, 0, 0, 1>>, <<1, 1, 0, 0>>, <<0, 0, 0, 0>>, <<0, 0, 0, 0>>>>
            ELSE <<<<1, 2, 3, 4>>, <<1, 0, 0, 1>>, <<1, 1, 0, 0>>>>
 MCBins  == <<{1, 2}, {3, 4}>>
-MCData  == IF Mixed THEN <<28, 36>> ELSE IF Layout = "two" THEN <<14, 12>> ELSE <<15, 14>>
+MCData  == IF Mixed THEN <<28, 36>> ELSE IF Layout \in {"two", "obs"} THEN <<14, 12>> ELSE <<15, 14>>
 MCSig   == <<2, 3>>
 MCChem  == {1, 2}
 MCNaNBins == {1}                 \* "NaNSome": the native points of bin 1 are NaN, bin 2 is comparable
